@@ -54,6 +54,9 @@ func genSyncEvent(t *rapid.T, adversarial bool) SyncEvent {
 		}
 		return SyncEvent{Ev: "head"}
 	case 8:
+		if adversarial && rapid.Bool().Draw(t, "headrace") {
+			return SyncEvent{Ev: "head_race", K: rapid.IntRange(0, 5).Draw(t, "hk"), RangeDelay: rapid.SampledFrom([]int{100, 500, 1500}).Draw(t, "hdelay")}
+		}
 		return SyncEvent{Ev: "sleep", K: rapid.SampledFrom([]int{100, 1000, 4000, 20000}).Draw(t, "ms")}
 	case 9, 10:
 		return SyncEvent{Ev: "policy",
@@ -121,11 +124,39 @@ func runSync(t *testing.T, s SyncScenario, c03 bool) (res Result) {
 			return
 		}
 		var maxAcked uint64
+		learnedAt := 0 // number of getter calls made before the newest head was learned
+		callsBeforeEvent := 0
 		ack := func(h uint64) {
 			obs.Acked = append(obs.Acked, h)
 			if h > maxAcked {
 				maxAcked = h
+				learnedAt = callsBeforeEvent // the sync it triggers may already have run when the call returns
 			}
+		}
+		// caughtUp is the C07 demand at a quiescent point: unless a getter error aborted a sync after the
+		// newest head was learned (then only the next learned head resumes it), the store has reached
+		// the newest head the Syncer acknowledged - including heads learned while a sync was running.
+		caughtUp := func(tag string) bool {
+			for _, c := range e.getter.Calls()[learnedAt:] {
+				if c.Method == "GetRangeByHeight" && c.Err != "" {
+					return true
+				}
+			}
+			sh, err := e.st.Head(ctx)
+			if err != nil {
+				res.failf("%s: store head: %v", tag, err)
+				return false
+			}
+			if sh.H < maxAcked {
+				res.failf("%s: at quiescence, without any getter error since the head %d was learned, the store head is %d (state %+v)", tag, maxAcked, sh.H, e.syncer.State())
+				return false
+			}
+			st := e.syncer.State()
+			if !st.Finished() || st.Error != "" {
+				res.failf("%s: at quiescence without getter errors State() = %+v, want finished without error", tag, st)
+				return false
+			}
+			return true
 		}
 		// Start learned the network head
 		if hd, err := e.syncer.Head(ctx); err == nil {
@@ -162,6 +193,7 @@ func runSync(t *testing.T, s SyncScenario, c03 bool) (res Result) {
 		for i, ev := range s.Events {
 			tag := fmt.Sprintf("event#%d %s/%s", i, ev.Ev, ev.Kind)
 			syncing := e.getter.Outstanding() > 0 || !e.syncer.State().Finished()
+			callsBeforeEvent = len(e.getter.Calls())
 			switch ev.Ev {
 			case "grow":
 				e.grow(ev.K)
@@ -180,7 +212,7 @@ func runSync(t *testing.T, s SyncScenario, c03 bool) (res Result) {
 					res.failf("HARNESS: no quiescence at %s", tag)
 					return
 				}
-				if !checkSafety(tag) {
+				if !checkSafety(tag) || !caughtUp(tag) {
 					return
 				}
 			case "burst":
@@ -230,6 +262,59 @@ func runSync(t *testing.T, s SyncScenario, c03 bool) (res Result) {
 				}
 				if syncing {
 					learnedWhileSyncing = true
+				}
+			case "head_race":
+				// The subjective head is stale; the (contract-abiding) getter answers the head request slowly
+				// and with an unverifiable header plus a soft VerifyError, as an Exchange relaying what untrusted
+				// peers said must. Meanwhile the real tip arrives over gossip and gets synced.
+				time.Sleep(4 * time.Second)
+				tip := e.getter.Tip()
+				fh := min(tip+2+uint64(ev.K%3), syncChainLen-10)
+				forged := vh.Variant(chain.At(fh), vh.AdvForged, uint32(i+500))
+				forged.T = chain.At(tip).T
+				forged.Seal()
+				e.getter.set(func() {
+					e.getter.HeadMode, e.getter.ExpiredHdr = "expired", forged
+					e.getter.HeadDelay = time.Duration(ev.RangeDelay) * time.Millisecond
+				})
+				var hwg sync.WaitGroup
+				var rh *vh.Header
+				var rerr error
+				hwg.Add(1)
+				go func() {
+					defer hwg.Done()
+					rh, rerr = e.syncer.Head(ctx)
+				}()
+				synctest.Wait()
+				// the network is already a few headers further (their stamps are within the clock drift allowance)
+				newTip := min(fh+uint64(ev.K), syncChainLen-5)
+				e.getter.SetTip(newTip)
+				gctx, gcancel := context.WithTimeout(ctx, 30*time.Second)
+				if gerr := e.sub.deliver(gctx, chain.At(newTip)); gerr == nil {
+					ack(newTip)
+				}
+				gcancel()
+				synctest.Wait()
+				hwg.Wait()
+				e.getter.set(func() { e.getter.HeadMode, e.getter.HeadDelay = "", 0 })
+				advHashes = append(advHashes, fmtHash(forged.Hash()))
+				advSeen["head_race"] = true
+				advWhileSyncing = true
+				if rerr == nil && rh != nil {
+					if !chain.IsCanonical(rh) {
+						res.failf("%s: Syncer.Head returned the unverifiable header %v", tag, rh)
+						return
+					}
+					ack(rh.H)
+				}
+				// catch up with the clock
+				time.Sleep(chain.At(newTip).Time().Sub(time.Now()) + time.Millisecond)
+				if !e.quiesce(600) {
+					res.failf("HARNESS: no quiescence at %s", tag)
+					return
+				}
+				if !checkSafety(tag) {
+					return
 				}
 			case "head":
 				hd, err := e.syncer.Head(ctx)
@@ -342,9 +427,13 @@ func runSync(t *testing.T, s SyncScenario, c03 bool) (res Result) {
 						return
 					}
 				}
-				if lh, err := e.syncer.Head(ctx); err == nil && !chain.IsCanonical(lh) {
-					res.failf("%s: Syncer.Head returned an unverifiable header %v", tag, lh)
-					return
+				callsBeforeEvent = len(e.getter.Calls())
+				if lh, err := e.syncer.Head(ctx); err == nil {
+					if !chain.IsCanonical(lh) {
+						res.failf("%s: Syncer.Head returned an unverifiable header %v", tag, lh)
+						return
+					}
+					ack(lh.H) // this call may itself have learned a new head
 				}
 			}
 			for _, c := range e.getter.Calls() {
@@ -359,7 +448,7 @@ func runSync(t *testing.T, s SyncScenario, c03 bool) (res Result) {
 			res.failf("HARNESS: no quiescence before the final phase")
 			return
 		}
-		if !checkSafety("before final phase") {
+		if !checkSafety("before final phase") || !caughtUp("before final phase") {
 			return
 		}
 		st := e.syncer.State()
@@ -369,6 +458,7 @@ func runSync(t *testing.T, s SyncScenario, c03 bool) (res Result) {
 		// heal the getter, let one more valid head arrive: everything acknowledged must get synced
 		e.getter.set(func() { e.getter.RangeMax, e.getter.RangeErrs, e.getter.RangeDelay = 0, 0, 0 })
 		e.grow(1)
+		callsBeforeEvent = len(e.getter.Calls())
 		tip := e.getter.Tip()
 		fctx, fcancel := context.WithTimeout(ctx, 30*time.Second)
 		verr := e.sub.deliver(fctx, chain.At(tip))
